@@ -532,7 +532,7 @@ def make_case(rng, kind, thorough, idx):
     runs = []
     seeds = lambda: rng.randint(0, 10 ** 9)  # noqa: E731
     nsched = 40 if thorough else 18
-    for nt in (1, 2, 3, 4, 8):
+    for nt in (0, 1, 2, 3, 4, 8):          # 0 = mju_threadpool(d, 0): no pool at all
         runs.append(("pass", nt, 0, "x"))
     for _ in range(max(3, nsched // 5)):
         runs.append(("free", rng.choice((1, 2, 3, 4, 8)), seeds(), "x"))
